@@ -30,6 +30,7 @@ type runCase struct {
 	Want    []string          `json:"want"`    // "forest","pastes","json","lex"
 	Timeout int               `json:"timeout"` // ms, default 10000
 	Outside []string          `json:"outside"` // files created in a sibling dir of the project dir
+	RawRoot string            `json:"rawroot"` // if set: spelling of the root path relative to the project dir, used verbatim
 }
 
 type errObs struct {
@@ -249,6 +250,9 @@ func once(c *runCase, base string, want map[string]bool) (o *runObs) {
 		return o
 	}
 	rootPath := filepath.Join(base, c.Root)
+	if c.RawRoot != "" {
+		rootPath = base + string(filepath.Separator) + c.RawRoot // not cleaned on purpose
+	}
 	j, rerr := kit.NewJapi(rootPath, oo...)
 	if rerr != nil {
 		o.Outcome = "readerr"
